@@ -36,12 +36,31 @@ func procRepoDir() string {
 
 type procSrc struct {
 	funcs  map[string]*ast.FuncDecl
+	byName map[string][]*ast.FuncDecl // methods and functions by bare name
+	fields map[string]int             // channel fields of the transfer object: capacity
 	consts map[string]int
 }
 
 func procLoad() *procSrc {
-	ps := &procSrc{funcs: map[string]*ast.FuncDecl{}, consts: map[string]int{}}
+	ps := &procSrc{funcs: map[string]*ast.FuncDecl{}, consts: map[string]int{}, byName: map[string][]*ast.FuncDecl{}, fields: map[string]int{}}
 	fset := token.NewFileSet()
+	if f, err := parser.ParseFile(fset, filepath.Join(procRepoDir(), "transfer.go"), nil, 0); err == nil {
+		ast.Inspect(f, func(n ast.Node) bool {
+			if kv, ok := n.(*ast.KeyValueExpr); ok {
+				if id, ok := kv.Key.(*ast.Ident); ok {
+					if call, ok := kv.Value.(*ast.CallExpr); ok && len(call.Args) == 2 {
+						if _, ok := call.Args[0].(*ast.ChanType); ok {
+							if bl, ok := call.Args[1].(*ast.BasicLit); ok {
+								v, _ := strconv.Atoi(bl.Value)
+								ps.fields[id.Name] = v
+							}
+						}
+					}
+				}
+			}
+			return true
+		})
+	}
 	for _, name := range []string{"pipeline.go", "append.go"} {
 		f, err := parser.ParseFile(fset, filepath.Join(procRepoDir(), name), nil, 0)
 		if err != nil {
@@ -51,6 +70,7 @@ func procLoad() *procSrc {
 			switch d := d.(type) {
 			case *ast.FuncDecl:
 				ps.funcs[d.Name.Name] = d
+				ps.byName[d.Name.Name] = append(ps.byName[d.Name.Name], d)
 			case *ast.GenDecl:
 				for _, sp := range d.Specs {
 					if vs, ok := sp.(*ast.ValueSpec); ok && d.Tok == token.CONST && len(vs.Values) == 1 {
@@ -81,6 +101,33 @@ func (ps *procSrc) procCount(mainFn string) string {
 	})
 	gos, closes, ranges := 1, 0, 0
 	var caps []int
+	// channels held in fields of the transfer object, used by code reachable (by name) from here
+	seen := map[*ast.FuncDecl]bool{}
+	used := map[string]bool{}
+	todo := append([]*ast.FuncDecl{}, fns...)
+	for len(todo) > 0 {
+		fd := todo[0]
+		todo = todo[1:]
+		if seen[fd] || fd.Body == nil {
+			continue
+		}
+		seen[fd] = true
+		ast.Inspect(fd.Body, func(n ast.Node) bool {
+			switch n := n.(type) {
+			case *ast.SelectorExpr:
+				if _, ok := ps.fields[n.Sel.Name]; ok {
+					used[n.Sel.Name] = true
+				}
+				todo = append(todo, ps.byName[n.Sel.Name]...)
+			case *ast.Ident:
+				todo = append(todo, ps.byName[n.Name]...)
+			}
+			return true
+		})
+	}
+	for f := range used {
+		caps = append(caps, ps.fields[f])
+	}
 	for _, fd := range fns {
 		ast.Inspect(fd.Body, func(n ast.Node) bool {
 			switch n := n.(type) {
